@@ -1290,7 +1290,10 @@ class Normalizer:
                 and all(is_pure(e) for a in it.args for e in a.elts):
             # (pairing the elements changes the order in which they are evaluated: pure elements only)
             it = ast.Tuple(elts=[ast.Tuple(elts=[a.elts[k] for a in it.args], ctx=ast.Load()) for k in range(len(it.args[0].elts))], ctx=ast.Load())
-        if not isinstance(it, (ast.Tuple, ast.List)) or not (1 <= len(it.elts) <= 8):
+        if not isinstance(it, (ast.Tuple, ast.List)) or not it.elts:
+            return None
+        if len(it.elts) > 8 and not (len(it.elts) <= 16 and all(isinstance(x, (ast.Constant, ast.Tuple)) and all(isinstance(y, (ast.Constant, ast.Tuple, ast.expr_context)) for y in ast.walk(x)) for x in it.elts)
+                                     and sum(cost(b) for b in st.body) <= 40):
             return None
         search = None
         if len(st.body) == 1 and isinstance(st.body[0], ast.If) and not st.body[0].orelse and st.body[0].body and isinstance(st.body[0].body[-1], ast.Break) \
@@ -2001,7 +2004,7 @@ class Normalizer:
             bases = {x.value.id for x in ast.walk(st.value) if isinstance(x, ast.Attribute) and isinstance(x.value, ast.Name)}
             bare = {x.id for x in free_names(st.value) if isinstance(x.ctx, ast.Load)} - bases
             # a name that only occurs as the base of attribute reads is covered by those attribute chains; 'self' is never re-bound
-            r |= (nm - bases) | bare | at | {b for b in bases if b != 'self'}
+            r |= (nm - bases) | bare | at | {'NAME:' + b for b in bases if b != 'self'}
             if isinstance(st, ast.AugAssign):
                 r |= w
             return w, r
@@ -2012,7 +2015,16 @@ class Normalizer:
             return all(is_pure(c) or state_preserving_call(c) for c in ast.walk(st) if isinstance(c, ast.Call)) and not any(isinstance(x, (ast.Yield, ast.Await, ast.NamedExpr)) for x in ast.walk(st))
 
         def overlap(a, b):
-            return any(x == y or x.startswith(y + '.') or y.startswith(x + '.') for x in a for y in b)
+            # 'NAME:v' = v is only the base of attribute reads: re-binding v matters, a store to v.attr does not (unless that very chain is read)
+            for x in a:
+                for y in b:
+                    if y.startswith('NAME:') or x.startswith('NAME:'):
+                        if x.replace('NAME:', '') == y.replace('NAME:', '') and not (x.startswith('NAME:') and y.startswith('NAME:')):
+                            return True
+                        continue
+                    if x == y or x.startswith(y + '.') or y.startswith(x + '.'):
+                        return True
+            return False
 
         def key(st):
             v = copy.deepcopy(st.value)
@@ -2467,6 +2479,10 @@ class ExprCanon(ast.NodeTransformer):
                 return ast.Tuple(elts=list(dd.values), ctx=ast.Load())
             if n.func.attr == 'items':
                 return ast.Tuple(elts=[ast.Tuple(elts=[k, v], ctx=ast.Load()) for k, v in zip(dd.keys, dd.values)], ctx=ast.Load())
+        # ', '.join(('a', 'b')) -> 'a, b'
+        if isinstance(n.func, ast.Attribute) and n.func.attr == 'join' and isinstance(n.func.value, ast.Constant) and isinstance(n.func.value.value, str) and len(n.args) == 1 \
+                and not n.keywords and isinstance(n.args[0], (ast.Tuple, ast.List)) and all(isinstance(e, ast.Constant) and isinstance(e.value, str) for e in n.args[0].elts):
+            return ast.Constant(value=n.func.value.value.join(e.value for e in n.args[0].elts))
         # string methods on constants
         if isinstance(n.func, ast.Attribute) and isinstance(n.func.value, ast.Constant) and isinstance(n.func.value.value, str) and not n.keywords \
                 and all(isinstance(a, ast.Constant) for a in n.args):
